@@ -541,9 +541,18 @@ func (m *Machine) Apply(a *Action) (Outcome, error) {
 		// Lz and N); the staker is the actor's address, as many bytes as the chain asks for
 		tok := make([]byte, 32)
 		copy(tok, []byte{0xaa, byte(a.N), byte(a.N >> 8), 0x01})
+		if a.Neg {
+			// the chain's native restaking token (the address of 0xee bytes)
+			for i := range tok {
+				tok[i] = 0xee
+			}
+		}
 		staker := make([]byte, 32)
 		copy(staker, m.ActorAddr(a.Actor).Bytes())
 		copy(staker[20:], []byte{0x51, 0x52, 0x53, 0x54, 0x55, 0x56, 0x57, 0x58, 0x59, 0x5a, 0x5b, 0x5c})
+		if a.Neg && a.Mode == 3 {
+			return fromCall(c.Precompile(m.caller(a.Caller), sim.AssetsPrecompileAddr, c.AssetsABI(), "withdrawNST", uint32(a.Lz), nstPubkey(a.Actor, a.N%3), staker, amt(a.Amount)))
+		}
 		switch a.Mode {
 		case 1: // delegate it to an operator
 			return fromCall(c.Precompile(m.caller(a.Caller), sim.DelegationPrecompileAddr, c.DelegationABI(), "delegate", uint32(a.Lz), c.NextLzNonce(a.Lz), tok, staker, []byte(m.OpAcc(a.Op).String()), amt(a.Amount)))
@@ -554,10 +563,22 @@ func (m *Machine) Apply(a *Action) (Outcome, error) {
 		case 4: // associate the staker with the operator
 			return fromCall(c.Precompile(m.caller(a.Caller), sim.DelegationPrecompileAddr, c.DelegationABI(), "associateOperatorWithStaker", uint32(a.Lz), staker, []byte(m.OpAcc(a.Op).String())))
 		}
+		if a.Neg {
+			pk := nstPubkey(a.Actor, a.N%3)
+			if a.Mode == 3 {
+				return fromCall(c.Precompile(m.caller(a.Caller), sim.AssetsPrecompileAddr, c.AssetsABI(), "withdrawNST", uint32(a.Lz), pk, staker, amt(a.Amount)))
+			}
+			return fromCall(c.Precompile(m.caller(a.Caller), sim.AssetsPrecompileAddr, c.AssetsABI(), "depositNST", uint32(a.Lz), pk, staker, amt(a.Amount)))
+		}
 		return fromCall(c.Precompile(m.caller(a.Caller), sim.AssetsPrecompileAddr, c.AssetsABI(), "depositLST", uint32(a.Lz), tok, staker, amt(a.Amount)))
 	case "regToken":
 		tok := make([]byte, 32)
 		copy(tok, []byte{0xaa, byte(a.N), byte(a.N >> 8), 0x01})
+		if a.Neg {
+			for i := range tok {
+				tok[i] = 0xee // the chain's native restaking token
+			}
+		}
 		return fromCall(c.Precompile(m.caller(a.Caller), sim.AssetsPrecompileAddr, c.AssetsABI(), "registerToken", uint32(a.Lz), tok, regTokenDecimals(a), fmt.Sprintf("tok-%d", a.N), "probe", fmt.Sprintf("TOK%d,Ethereum,8%s", a.N, []string{"", ",0", ",7", ",10", ",0,0x01", ",1", ",2"}[a.Ident%7])))
 	case "updToken":
 		as := m.W.Cfg.Assets[a.Asset]
